@@ -131,6 +131,8 @@ def r6(ctx, fs):
     if not ok:
         ctx.finding(rid, f.id, 'interval', 'state_variable::new_predicate must add the Interval predicate as supertype (temporal rule, start/end parameters) and the tau field', loc=f.loc)
     _smart.new_atom(ctx, rid, fs.fn(SV + '::new_atom'), SV, 'get_interval')
+    _smart.notify_smart_types(ctx, rid, fs)
+    _smart.recheck_set_grow_only(ctx, rid, fs, SV)
 
 
 def run(ctx):
